@@ -286,6 +286,8 @@ def B_pty(now, w0, r0, st, e1, e2, e3, k2, k3, w1, w2, size, T, tmode, poll):
             return SKIP
         except _Hang:
             return -1 if w.blocked_on_running_child else 0
+        finally:
+            pt.closed = True       # keep PtyProcess.__del__ from running close() later
     r = _judge_R(w, t_start, eff, out, had)
     if r == 0 and w.blocked_on_running_child:
         return -1
